@@ -29,11 +29,27 @@ def set_it(st, it):
     st['cpsr'] = limbs(c | ((it >> 2) & 0x3F) << 10 | (it & 3) << 25)
 
 
+ARM_ARMING = [0xEF000000, 0xE7F000F0, 0xE5900000, 0xE1200070]       # SVC, UDF, LDR r0,[r0] (may abort), BKPT: leave execute() by exception
+
+
+def arm_the_instance(g, rnd, task, thumb):
+    """history: an instruction whose condition PASSES and which leaves execute() through an exception, on the same
+    object, just before a condition-failed one (state left behind by the first must not leak into the second)"""
+    st, pc = S.prep(g, rnd, task, thumb, 0, rnd.randrange(8))
+    if thumb:
+        C.put_instr(st, pc, rnd.choice([0xDF00, 0xDE00, 0x6800, 0xBE00]), True)
+    else:
+        C.put_instr(st, pc, rnd.choice(ARM_ARMING), False)
+    g.add(st, {'n': 'Step'}, meta={'word': 0, 'cond': 14, 'flags': 0, 'arming': True})
+
+
 def neg_arm(task):
     rnd = random.Random(task['seed'])
     g = S.mk_group(task)
     for k, w in enumerate(task['words']):
         cond, f = task['pairs'][k % len(task['pairs'])]
+        if k % 5 == 0:
+            arm_the_instance(g, rnd, task, False)
         st, pc = S.prep(g, rnd, task, False, 0, k)
         set_flags(st, f)
         C.put_instr(st, pc, (w & 0x0FFFFFFF) | (cond << 28), False)
@@ -47,6 +63,8 @@ def neg_thumb(task):
     g = S.mk_group(task)
     for k, w in enumerate(task['words']):
         cond, f = task['pairs'][k % len(task['pairs'])]
+        if k % 5 == 0:
+            arm_the_instance(g, rnd, task, True)
         st, pc = S.prep(g, rnd, task, True, 0, k)
         set_flags(st, f)
         set_it(st, (cond << 4) | (8 if k % 2 else rnd.choice(S.IT_MID)))
